@@ -20,6 +20,7 @@ from fibertree import Fiber, Tensor, Payload, Metrics
 from fibertree.model import Compute
 
 from mc import bfs, core
+from mc.univ import mkfiber
 from mc.kernel import EXPRS, Kernel, dense, make_inputs, nest, index_vars, all_values
 from mc.props.c06 import shapes_for, programs
 
@@ -576,7 +577,144 @@ def key(S):
     return canon_metrics()
 
 
-CASES = {"history": bfs.replay_case, "kernel": case_kernel, "explicit": case_explicit,
+# ---------------------------------------------------------------------------
+# (c) operand kinds: an arithmetic operation executed on boxes is counted the same whether its other operand is a
+# box or a plain number (the operation executed is the same), and k repetitions count k times
+
+import operator as _op
+
+OPKINDS = {
+    "*": _op.mul, "+": _op.add,
+    "*=": _op.imul, "+=": _op.iadd,
+}
+
+
+def _count_session(fn, reps):
+    Metrics.beginCollect()
+    try:
+        for _ in range(reps):
+            fn()
+    finally:
+        Metrics.endCollect()
+    d = Metrics.dump()
+    return dict(d.get("Compute", {}))
+
+
+def case_opkinds(case):
+    sym, a, b, reps = case
+    fn = OPKINDS[sym]
+    out = []
+    feats = {"op:" + sym, "left_zero" if a == 0 else "left_nonzero", "right_zero" if b == 0 else "right_nonzero"}
+    try:
+        forms = {
+            "box.box": lambda: fn(Payload(a), Payload(b)),
+            "box.scalar": lambda: fn(Payload(a), b),
+        }
+        if sym in ("*", "+"):
+            forms["scalar.box"] = lambda: fn(a, Payload(b))
+        counts = {k: _count_session(f, reps) for k, f in forms.items()}
+        base = counts["box.box"]
+        for k, c in counts.items():
+            if c != base:
+                out.append(("numOps", "count-depends-on-operand-kind", feats | {"form:" + k}, base, c))
+        one = _count_session(forms["box.box"], 1)
+        if {k: v * reps for k, v in one.items()} != base:
+            out.append(("numOps", "count-not-proportional-to-repetitions", feats, {k: v * reps for k, v in one.items()}, base))
+        if not base:
+            out.append(("numOps", "operation-not-counted", feats, "some Compute counter", base))
+        core.CUR.nt("opkinds")
+        core.CUR.outcome((sym, tuple(sorted(base.items()))))
+    except Exception as ex:
+        if Metrics.isCollecting():
+            try:
+                Metrics.endCollect()
+            except Exception:
+                Metrics.collecting = False
+        out.append(("numOps", "exception:" + type(ex).__name__, feats | {"site:" + core.exc_site(ex)}, None,
+                    core.tb_tail(ex)))
+    return out
+
+
+def shard_opkinds(acc, shard, nshards, params):
+    cases = ((sym, a, b, reps) for sym in OPKINDS for a in (0, 2, 0.5) for b in (0, 3, 1.5) for reps in (1, 3))
+    core.drive(acc, "opkinds", case_opkinds, cases, shard, nshards, family="opkinds[* + *= += x box/scalar]")
+
+
+# ---------------------------------------------------------------------------
+# (d) partitioned populate: one output fiber is populated from successive operand partitions, each populate resuming
+# from the output's saved position (z_m.__lshift__(part, start_pos=...)); the outcome (error or not, saved
+# positions, content) may not depend on whether metrics are collected nor on which traces are registered
+
+PP_SUBSETS = [[], ["iter"], ["populate_1"], ["populate_write_0"], ["populate_read_0"],
+              ["iter", "populate_read_0", "populate_write_0"]]
+
+
+def _pp_kernel(zc, parts, n, collect, traces, prefix):
+    z = Tensor.fromFiber(["M"], mkfiber(zc, 1), shape=[n])
+    ps = [Tensor.fromFiber(["M"], mkfiber(pc, 2 + i), shape=[n]) for i, pc in enumerate(parts)]
+    z_m = z.getRoot()
+    if collect:
+        Metrics.beginCollect(prefix)
+        for t in traces:
+            Metrics.trace("M", t)
+    saved, err = [], None
+    try:
+        pos = 0
+        for part in ps:
+            for m, (z_ref, a_val) in z_m.__lshift__(part.getRoot(), start_pos=pos):
+                z_ref += a_val
+            pos = z_m.getSavedPos()
+            saved.append(pos)
+    except Exception as ex:
+        err = type(ex).__name__
+    finally:
+        if collect:
+            try:
+                Metrics.endCollect()
+            except Exception:
+                Metrics.collecting = False
+    return err, saved, list(zip(z_m.getCoords(), [p.value for p in z_m.getPayloads()]))
+
+
+def case_partpop(case):
+    zc, p1, p2 = case
+    n = len(zc)
+    out = []
+    prefix = os.path.join(core.scratch(), "c15pp")
+    feats = {"partitioned_populate_with_start_pos"}
+    if any(x != '-' for x in zc):
+        feats.add("destination_not_empty")
+    ref = _pp_kernel(zc, (p1, p2), n, False, [], prefix)
+    if ref[0] is not None:
+        core.CUR.path("partpop:reference-run-raises:" + ref[0])     # outside the idiom's domain: not judged
+        return out
+    for traces in PP_SUBSETS:
+        got = _pp_kernel(zc, (p1, p2), n, True, traces, prefix)
+        _files(prefix)
+        if got != ref:
+            out.append(("transparency", "outcome-differs-with-collection-on",
+                        feats | {"traces:" + ("+".join(traces) or "none")}, ref, got))
+    core.CUR.nt("partpop")
+    return out
+
+
+def shard_partpop(acc, shard, nshards, params):
+    n, = params
+    from mc.univ import f1 as _f1
+    u = [c for c in _f1(n, "-v")]
+
+    def gen():
+        for zc in u:
+            for p1 in u:
+                last = max([i for i, x in enumerate(p1) if x != '-'] or [0])
+                for p2 in u:
+                    # the next partition starts at or after the coordinate the previous one ended on
+                    if all(i >= last for i, x in enumerate(p2) if x != '-'):
+                        yield (zc, p1, p2)
+    core.drive(acc, "partpop", case_partpop, gen(), shard, nshards, family="partitioned-populate[N=%d]" % n)
+
+
+CASES = {"partpop": case_partpop, "opkinds": case_opkinds, "history": bfs.replay_case, "kernel": case_kernel, "explicit": case_explicit,
          "assign_leaf": case_assign_leaf}
 
 
@@ -608,6 +746,17 @@ def run(ctx):
     if not ctx.only or "assign" in ctx.only:
         ctx.shards(shard_assign_leaf, (3, (-1, 0, 1, 2)) if q else (4, (-1, 0, 1, 2)))
         ctx.bounds["union-assign"] = "Z_m = A_m + B_m through z << (a | b) and z_ref <<= a + b, all vector pairs over {-1,0,1,2}"
+    if not ctx.only or "partpop" in ctx.only:
+        ctx.shards(shard_partpop, (4 if q else 5,))
+        ctx.bounds["partitioned-populate"] = ("z (F1(N,{-,v}), declared shape) populated from two successive partitions, the second "
+                                              "starting at or after the first one's last coordinate, resuming at z's saved position; "
+                                              "metrics off vs. on with trace subsets none / iter / populate_1 / populate_write_0 / "
+                                              "populate_read_0 / three together; N=%d" % (4 if q else 5))
+    if not ctx.only or "opkinds" in ctx.only:
+        ctx.shards(shard_opkinds, None, nshards=4)
+        ctx.bounds["operand-kinds"] = ("* + *= += (subtraction is not a counted operation) with left operand a box over {0,2,0.5}, right operand {0,3,1.5} as box / plain "
+                                       "number (and plain number on the left for * +), 1 and 3 repetitions: Compute counters equal "
+                                       "across operand kinds, proportional to the repetitions, and not empty")
     if not ctx.only or "sessions" in ctx.only:
         info = bfs.explore(ctx.acc, SPEC, [("pristine",)], "sessions", max_depth=None,
                            deadline=time.time() + 300)
